@@ -20,7 +20,7 @@ def gen_config(rng, tier, dims=(1, 2, 2, 2, 3, 3, 4), max_steps=None, box_kinds=
         lmin, lmax = rng.choice([(1, 2), (2, 3), (1, 3)])
     if d == 3 and lmax > 3 and rng.random() < 0.5:
         lmin, lmax = 2, 3
-    kind, a, b = hooks.gen_box(rng, d, box_kinds or ["unit", "unit", "shifted", "negative", "aniso", "tiny", "huge", "dyadic", "integer"])
+    kind, a, b = hooks.gen_box(rng, d, box_kinds or ["unit", "unit", "shifted", "negative", "aniso", "tiny", "huge", "dyadic", "integer", "integer", "mixed_scales"])
     steps_cap = max_steps or (14 if tier == "quick" else 40)
     if d >= 3:
         steps_cap = min(steps_cap, 8 if tier == "quick" else 14)
